@@ -27,7 +27,15 @@ def gen_case_chain(seed, i):
     for j in range(n):
         k = r.randint(1, 2)
         stages.append({"match": " ".join(r.sample(FILTERS, k)), "preceding": j >= first_pre, "ident": f"s{j}" if r.random() < 0.7 else None})
-    return {"recs": gen_recs(r), "stages": stages}
+    case = {"recs": gen_recs(r), "stages": stages}
+    if i % 4 == 3:
+        # the file and the CsvPaths in another dialect; a few cells hold the characters that need quoting in one dialect or the other
+        case["delim"] = r.choice([";", "|", "\t", ","])
+        case["quote"] = r.choice(["'", '"'])
+        for row in case["recs"][1:]:
+            if r.random() < 0.3:
+                row[3] = r.choice(["q,w", "q;w", 'say "q"', "it's", "q|w"])
+    return case
 
 
 def stage_text(s, path=""):
@@ -47,8 +55,9 @@ def case_chain(case):
 
     realenv.reset_dirs()
     res = {"case": case, "disagree": [], "oracle": [], "nontrivial": False}
-    cp = RG.new_csvpaths(policy=["raise", "collect"], csvpath_policy=["collect"])
-    RG.setup_group(cp, "chain", [stage_text(s) for s in case["stages"]], "food", case["recs"])
+    delim, quote = case.get("delim", ","), case.get("quote", '"')
+    cp = RG.new_csvpaths(policy=["raise", "collect"], csvpath_policy=["collect"], delimiter=delim, quotechar=quote)
+    RG.setup_group(cp, "chain", [stage_text(s) for s in case["stages"]], "food", case["recs"], delimiter=delim, quotechar=quote)
     origin_path = cp.file_manager.get_named_file("food")
     caller, mobs, raised = RG.run_group(cp, "chain", "food", "collect_paths")
     stages = case["stages"]
@@ -64,8 +73,8 @@ def case_chain(case):
             expected.append(([], []))
             prev = []
             continue
-        path = real_run.write_file(f"stage{j}.csv", inp)
-        out, _ = real_run.run_single(f"${path}[*][{s['match']}]", "collect", policy=["collect"])
+        path = real_run.write_file(f"stage{j}.csv", inp, delimiter=delim, quotechar=quote)
+        out, _ = real_run.run_single(f"${path}[*][{s['match']}]", "collect", policy=["collect"], delimiter=delim, quotechar=quote)
         if "parse_error" in out or out.get("raised"):
             res["unmodelled"] = out.get("parse_error") or out.get("raised")
             return res
